@@ -1193,6 +1193,41 @@ theorem capsule3_is_solid_of_revolution (ρ r : ℝ) (a b : V3 ℝ) (hρ : 0 ≤
   simp only [integral_const, smul_eq_mul]
   refine ⟨by ring, by ring, by ring⟩
 
+/-- **Box (3-D), as a triple integral**: mass `ρ ∭ 1` and the three diagonal entries of the inertia tensor
+`ρ ∭ (y² + z²)`, `ρ ∭ (x² + z²)`, `ρ ∭ (x² + y²)` over `[-hx,hx]×[-hy,hy]×[-hz,hz]` are what `from_cuboid` (dim3) returns. -/
+theorem cuboid3_is_integral (ρ : ℝ) (he : V3 ℝ) (hρ : 0 ≤ ρ) (hx : 0 ≤ he.x) (hy : 0 ≤ he.y) (hz : 0 ≤ he.z) :
+    letI := fieldNum ℝ Real.sqrt
+    massOf3 (fromCuboid3 ρ he) = ρ * ∫ _x in (-he.x)..he.x, ∫ _y in (-he.y)..he.y, ∫ _z in (-he.z)..he.z, (1 : ℝ) ∧
+    (inertiaOf3 (fromCuboid3 ρ he)).x = ρ * ∫ _x in (-he.x)..he.x, ∫ y in (-he.y)..he.y, ∫ z in (-he.z)..he.z, (y ^ 2 + z ^ 2) ∧
+    (inertiaOf3 (fromCuboid3 ρ he)).y = ρ * ∫ x in (-he.x)..he.x, ∫ _y in (-he.y)..he.y, ∫ z in (-he.z)..he.z, (x ^ 2 + z ^ 2) ∧
+    (inertiaOf3 (fromCuboid3 ρ he)).z = ρ * ∫ x in (-he.x)..he.x, ∫ y in (-he.y)..he.y, ∫ _z in (-he.z)..he.z, (x ^ 2 + y ^ 2) := by
+  obtain ⟨c1, c2, _, _⟩ := cuboid3_spec Real.sqrt real_lawfulSqrt ρ he hρ hx hy hz
+  rw [c1, c2]
+  -- innermost integrals (in z)
+  have iz : ∀ u : ℝ, (∫ z in (-he.z)..he.z, (u + z ^ 2)) = 2 * he.z * u + 2 * he.z ^ 3 / 3 := by
+    intro u
+    rw [integral_eq_poly4 _ (-he.z) he.z u 0 1 0 0 (by intro z; ring)]; ring
+  have iy : ∀ a b : ℝ, (∫ y in (-he.y)..he.y, (a * y ^ 2 + b)) = 2 * he.y ^ 3 / 3 * a + 2 * he.y * b := by
+    intro a b
+    rw [integral_eq_poly4 _ (-he.y) he.y b 0 a 0 0 (by intro y; ring)]; ring
+  have ix : ∀ a b : ℝ, (∫ x in (-he.x)..he.x, (a * x ^ 2 + b)) = 2 * he.x ^ 3 / 3 * a + 2 * he.x * b := by
+    intro a b
+    rw [integral_eq_poly4 _ (-he.x) he.x b 0 a 0 0 (by intro x; ring)]; ring
+  have e1 : ∀ y : ℝ, (∫ z in (-he.z)..he.z, (y ^ 2 + z ^ 2)) = (2 * he.z) * y ^ 2 + 2 * he.z ^ 3 / 3 := by
+    intro y; rw [iz]
+  have e2 : ∀ x : ℝ, (∫ z in (-he.z)..he.z, (x ^ 2 + z ^ 2)) = 2 * he.z * x ^ 2 + 2 * he.z ^ 3 / 3 := by
+    intro x; rw [iz]
+  have e3 : ∀ x : ℝ, (∫ y in (-he.y)..he.y, (x ^ 2 + y ^ 2 : ℝ) * (2 * he.z)) = (2 * he.y * (2 * he.z)) * x ^ 2 + 2 * he.y ^ 3 / 3 * (2 * he.z) := by
+    intro x
+    rw [integral_eq_poly4 _ (-he.y) he.y (x ^ 2 * (2 * he.z)) 0 (2 * he.z) 0 0 (by intro y; ring)]; ring
+  simp only [integral_const, smul_eq_mul, e1, e2, iy, sub_neg_eq_add]
+  refine ⟨by ring, by ring, ?_, ?_⟩
+  · have : ∀ x : ℝ, (he.y + he.y) * (2 * he.z * x ^ 2 + 2 * he.z ^ 3 / 3) = ((he.y + he.y) * (2 * he.z)) * x ^ 2 + (he.y + he.y) * (2 * he.z ^ 3 / 3) := by
+      intro x; ring
+    simp only [this, ix]; ring
+  · have h2 : ∀ x y : ℝ, (he.z + he.z) * (x ^ 2 + y ^ 2) = (x ^ 2 + y ^ 2) * (2 * he.z) := by intro x y; ring
+    simp only [h2, e3, ix]; ring
+
 end Integrals
 
 /-! ## Non-vacuity: the hypotheses of the theorems above are satisfiable on concrete non-trivial inputs (over ℝ, where
